@@ -196,7 +196,9 @@ func (k *KVStore) deleteFromPreviousTables(hkey uint64) error {
 
 // PutRaw sets the raw value for the given key.
 func (k *KVStore) PutRaw(hkey uint64, value []byte) error {
-	if uint64(len(value)) > k.tableSize {
+	if uint64(len(value)) >= k.tableSize {
+		// A table accepts an entry only if it is smaller than the table (see table.PutRaw).
+		// An entry of exactly tableSize bytes would never fit and a new table would be created forever.
 		return storage.ErrEntryTooLarge
 	}
 
@@ -233,7 +235,9 @@ func (k *KVStore) PutRaw(hkey uint64, value []byte) error {
 
 // Put sets the value for the given key. It overwrites any previous value for that key
 func (k *KVStore) Put(hkey uint64, value storage.Entry) error {
-	if requiredSizeForAnEntry(value) > k.tableSize {
+	if requiredSizeForAnEntry(value) >= k.tableSize {
+		// A table accepts an entry only if it is smaller than the table (see table.Put).
+		// An entry of exactly tableSize bytes would never fit and a new table would be created forever.
 		return storage.ErrEntryTooLarge
 	}
 
